@@ -52,6 +52,36 @@ CHECKS = {
           "Fault sequences on some connections while numbered healthy traffic must continue after every fault, a fresh peer must still get in, and no task may panic; the back-off rule (d0 = ivl, geometric growth at most, cap, reset) is checked on 20 000 parameter triples and observed on the wire.",
           "Timing bounds allow for the session's 1 s minimum lifespan; the OS schedule is sampled, not owned.",
           "DESIGN.md §2 C17"),
+  "C01": ("exploration",
+          "property-based testing (proptest) of end-to-end workloads over real sockets: accounting payloads (sender, sequence, frame index/count, crc) + sentinel-closed per-connection FIFO oracle; generators aim message sizes at the logical and physical batch ceilings (incl. the overtake motif), HWM 1..256, batch options, first send straight after connect(), stalling receivers",
+          "Generated search: hundreds of workloads per run across five socket pairs, three transports and three runtime shapes; the receiver decides loss, duplication, reordering, truncation and corruption from the payloads alone.",
+          "The OS schedule is sampled, not owned; options set before bind/connect; ROUTER sends only after the peer identity is known; REQ single-frame.",
+          "DESIGN.md §2 C01"),
+  "C08": ("exploration",
+          "schedule fuzzing of the real ReadyPipeQueue with a deterministic thread scheduler (one OS thread per logical task, yields at cfg-gated schedule points between each channel write / counter update / dequeue / re-arm and on every Pending): bounded-exhaustive enumeration of all schedules up to k preemptions for six small scenarios + proptest-generated scenarios and random decision lists; deadlock detection + exactly-once / per-pipe FIFO / reserved>=queued oracles",
+          "Systematic: every schedule with at most k decisions (k=3 quick, 4 thorough) of six fixed scenarios is executed on the real code, plus thousands of sampled (scenario, schedule) pairs; 'no runnable task while work is outstanding' is a detected lost wake-up.",
+          "Each fibre channel operation and each atomic is one step (no exploration inside the channel or of memory ordering); per-pipe FIFO only judged with one consumer.",
+          "DESIGN.md §2 C08"),
+  "C13": ("exploration",
+          "model-based property testing (proptest) of the real OutgoingMessageOrchestrator with scripted connections (add/remove/set_room/send histories; exactly-one, ready-only, never-refuse-while-ready, exact round-robin on stable windows, bounded pass-over); bounded-exhaustive schedule enumeration of the wait-for-first-peer window with the deterministic scheduler; PUSH with one never-reading PULL end to end",
+          "Generated histories (15 000 per run) against consequences of round-robin rather than the cursor value; the check-then-wait window is enumerated exhaustively up to the preemption bound; a few end-to-end stalled-peer runs.",
+          "Single-threaded histories at L1; known finding: the send blocks on one full peer while others drain.",
+          "DESIGN.md §2 C13"),
+  "C14": ("exploration",
+          "property-based testing (proptest) of flood-then-drain scenarios: empty-queue recv and full-queue send judged against RCVTIMEO/SNDTIMEO (exact under tokio's paused clock on inproc, with slack on tcp/ipc), accepted-count against a stated HWM bound, and accounting payloads behind a sentinel for 'nothing accepted is lost, nothing refused is delivered'; directed infinite-timeout waits (1000 virtual seconds; 32 real seconds in the thorough tier)",
+          "Generated search over four socket pairs x transports x HWM/timeout/batch options; timing is exact where the harness owns the clock (paused runtime) and bounded elsewhere.",
+          "Bound on buffered messages is generous by design (3*(SNDHWM+RCVHWM) + 2*batch counts + kernel allowance + 64): the property names no constant.",
+          "DESIGN.md §2 C14"),
+  "C15": ("exploration",
+          "property-based testing (proptest): bursts of accounting-payload messages followed immediately by close()/term() under generated LINGER, sizes up to beyond the kernel socket buffers, reader pacing; receiver-side reconstruction (whole, intact, ordered, no duplicates) + delivery and duration oracles per LINGER class",
+          "Generated search over LINGER values x burst shapes x close styles x transports; integrity is checked for every LINGER, completeness for -1/ample, duration for 0/bounded.",
+          "The receiver stops after 1.5 s of silence once the sender's context has terminated; known finding: data already inside the session is discarded at close.",
+          "DESIGN.md §2 C15"),
+  "C16": ("exploration",
+          "property-based testing (proptest) of generated termination programs (operations in flight: dead-endpoint connector, stalled handshake peer, send blocked at HWM, blocked recv, traffic, monitor; ended by term / close+term / concurrent close+term after 0..49 ms) with liveness-by-bound, closed-socket, live-actor, re-bind and runtime-task oracles; bounded-exhaustive schedule enumeration of WaitGroup::wait vs done() with the deterministic scheduler",
+          "Generated programs (48 quick / 3000 thorough) with generous real-time bounds; the wait-group window is enumerated exhaustively up to the preemption bound.",
+          "Bounds: term 15 s (9 s flags the internal fallback), calls on closed sockets 1 s, actors 2 s, tasks 3 s; watchdog hits are inconclusive.",
+          "DESIGN.md §2 C16"),
 }
 
 NOT_YET = {
